@@ -383,6 +383,36 @@ def wl_history(ctx, rng, i):
                     ctx.violation("first-add-refused:" + nm, "%s store refused a first-time addition (%s) of %s modified %s via %s" % (nm, r, j["id"], j.get("modified"), form),
                                   {"store": nm, "object": j, "form": form, "result": r, "history": history})
             ctx.count("adds")
+            if rng.random() < 0.3:
+                # a lot that cannot go in: a further version of a stored id, followed by a member no store can keep beside what it
+                # holds (the same id without any version information; a version whose modified cannot be ordered).  A store refuses
+                # the lot as a whole -- nothing of it stays -- or, if it takes it, answers for everything it took
+                cands = [x for x in model.items if "modified" in x and kinds.get(x["id"], "").startswith("dict")]
+                if cands:
+                    base_j = rng.choice(cands)
+                    latest_us = max(tsor.text_us(x["modified"]) for x in model.versions(base_j["id"]))
+                    newer = dict(json.loads(json.dumps(base_j)), modified=tsor.format_us(latest_us + 86400 * 10 ** 6, "millisecond", "min"), name="further version in a refused lot")
+                    bad = rng.choice([{"type": base_j["type"], "id": base_j["id"], "name": "no version information"},
+                                      dict(json.loads(json.dumps(base_j)), modified="the day after", name="modified that cannot be ordered")])
+                    for nm, store in (("memory", mem), ("filesystem", fs)):
+                        lot = [json.loads(json.dumps(newer)), json.loads(json.dumps(bad))]
+                        try:
+                            with warnings.catch_warnings():
+                                warnings.simplefilter("ignore")
+                                store.add(lot if rng.random() < 0.5 else {"type": "bundle", "id": "bundle--" + V.uuid_text(rng, 4), "objects": lot})
+                            took = True
+                        except Exception:
+                            took = False
+                        ctx.ev()
+                        ctx.count("unstorable_lots")
+                        history.append({"id": base_j["id"], "refused_lot_to": nm, "members": [newer.get("modified"), bad.get("modified", "<none>")], "taken": took})
+                        if took:
+                            ctx.violation("lot-with-unstorable-member-accepted:" + nm, "the %s store took a lot whose second member (%s) it cannot keep beside the versions of %s it holds" % (nm, bad["name"], base_j["id"]),
+                                          {"store": nm, "lot": lot, "history": history})
+                            return
+                    # (nothing of the refused lots is in the list; the reads below and at the end judge the stores against it)
+                    check_store(ctx, "MemoryStore", mem, model, history, {"history": list(history), "kinds": dict(kinds), "read": "after a refused lot", "forms": {k_: "+".join(sorted(set(v_))) for k_, v_ in forms_used.items()}})
+                    check_store(ctx, "FileSystemStore", fs, model, history, {"history": list(history), "kinds": dict(kinds), "read": "after a refused lot", "forms": {k_: "+".join(sorted(set(v_))) for k_, v_ in forms_used.items()}})
             if rng.random() < 0.25 and pos < len(order):
                 # reads between additions: what a store answered (or remembered) earlier must not shape what it answers later
                 mid = {"history": list(history), "kinds": dict(kinds), "read": "between additions", "forms": {k_: "+".join(sorted(set(v_))) for k_, v_ in forms_used.items()}}
